@@ -52,6 +52,7 @@ extern "C"
     int c01_c_walk_sl_entry(struct slist_head *h, int cond, int stop, int skip, int *out, int max, int *else_ran);
     int c01_c_walk_hl_entry(struct hlist_head *h, int cond, int stop, int skip, int *out, int max, int *else_ran);
     int c01_c_filter_hl(struct hlist_head *h, int parity, int *deleted, int max, int *ndeleted);
+    int c01_c_safe_walk_edit(struct dlist_head *h, int at, int mode, struct dlist_head *extra, int *out, int max);
 #ifdef __cplusplus
 }
 #endif
